@@ -632,6 +632,98 @@ func (g *gctx) otherStmt() Stmt {
 	}
 }
 
+// routeTwice adds three plain sends: X pays Y, X is paid (by @world or by a third account), X pays Y again -- the
+// second payment sized so that it needs what X received in between. The same route occurs twice in one
+// transaction and the order of its postings matters to whoever replays them.
+func (g *gctx) routeTwice() {
+	asset := rapid.SampledFrom(assetPool).Draw(g.t, "rtAsset")
+	x := rapid.SampledFrom(accPool).Draw(g.t, "rtPayer")
+	y := rapid.SampledFrom(append([]string{"world"}, accPool...)).Draw(g.t, "rtPayee")
+	if y == x {
+		y = "world"
+	}
+	bal := g.env.Balance(x, asset)
+	if bal.Sign() < 0 || bal.BitLen() > 62 {
+		bal = big.NewInt(int64(rapid.IntRange(0, 40).Draw(g.t, "rtBalance")))
+		if g.env.Balances[x] == nil {
+			g.env.Balances[x] = map[string]*big.Int{}
+		}
+		g.env.Balances[x][asset] = new(big.Int).Set(bal)
+	}
+	first := new(big.Int).Set(bal)
+	if bal.Sign() > 0 && rapid.Bool().Draw(g.t, "rtFirstPartial") {
+		first = big.NewInt(int64(rapid.IntRange(1, int(min(bal.Int64(), 1000))).Draw(g.t, "rtFirst")))
+	}
+	received := big.NewInt(int64(rapid.IntRange(1, 60).Draw(g.t, "rtReceived")))
+	second := new(big.Int).Add(new(big.Int).Sub(bal, first), received)
+	if second.Sign() > 0 && rapid.IntRange(0, 3).Draw(g.t, "rtSecondLess") == 0 {
+		second.Sub(second, big.NewInt(1))
+	}
+	plain := func(amount *big.Int, from, to string) Send {
+		src := Expr(LitAccount{from})
+		if from != "world" {
+			src = g.accountExpr(from)
+		}
+		dst := Expr(LitAccount{to})
+		if to != "world" {
+			dst = g.accountExpr(to)
+		}
+		return Send{Amount: g.monExpr(asset, amount), Src: SrcAccount{Acc: src}, Dest: DestAccount{Acc: dst}}
+	}
+	triple := []Stmt{plain(first, x, y), plain(received, "world", x), plain(second, x, y)}
+	if rapid.Bool().Draw(g.t, "rtFirstInProgram") {
+		g.prog.Stmts = append(triple, g.prog.Stmts...)
+	} else {
+		g.prog.Stmts = append(g.prog.Stmts, triple...)
+	}
+	g.label("route-twice")
+}
+
+// selfPay adds two sends: an account pays itself (alone, or as one of two ordered sources), then the same
+// account is drawn on again in the same script -- for everything it has, or for an exact amount it can afford.
+func (g *gctx) selfPay() {
+	asset := rapid.SampledFrom(assetPool).Draw(g.t, "spAsset")
+	x := rapid.SampledFrom(accPool).Draw(g.t, "spAccount")
+	bal := g.env.Balance(x, asset)
+	if bal.Sign() <= 0 || bal.BitLen() > 62 {
+		bal = big.NewInt(int64(rapid.IntRange(1, 200).Draw(g.t, "spBalance")))
+		if g.env.Balances[x] == nil {
+			g.env.Balances[x] = map[string]*big.Int{}
+		}
+		g.env.Balances[x][asset] = new(big.Int).Set(bal)
+	}
+	toSelf := big.NewInt(int64(rapid.IntRange(1, int(min(bal.Int64(), 1000))).Draw(g.t, "spToSelf")))
+	var src Source = SrcAccount{Acc: g.accountExpr(x)}
+	if rapid.IntRange(0, 2).Draw(g.t, "spOrdered") == 0 {
+		z := rapid.SampledFrom(accPool).Draw(g.t, "spOther")
+		if z != x {
+			src = SrcInOrder{Srcs: []Source{SrcAccount{Acc: g.accountExpr(x)}, SrcAccount{Acc: g.accountExpr(z)}}}
+		}
+	}
+	first := Send{Amount: g.monExpr(asset, toSelf), Src: src, Dest: DestAccount{Acc: g.accountExpr(x)}}
+	y := rapid.SampledFrom(append([]string{"world"}, accPool...)).Draw(g.t, "spPayee")
+	if y == x {
+		y = "world"
+	}
+	dst := Expr(LitAccount{y})
+	if y != "world" {
+		dst = g.accountExpr(y)
+	}
+	again := Send{Src: SrcAccount{Acc: g.accountExpr(x)}, Dest: DestAccount{Acc: dst}}
+	if rapid.Bool().Draw(g.t, "spAll") {
+		again.AllAsset = g.assetExpr(asset)
+	} else {
+		again.Amount = g.monExpr(asset, new(big.Int).Set(bal))
+	}
+	pair := []Stmt{first, again}
+	if rapid.Bool().Draw(g.t, "spFirstInProgram") {
+		g.prog.Stmts = append(pair, g.prog.Stmts...)
+	} else {
+		g.prog.Stmts = append(g.prog.Stmts, pair...)
+	}
+	g.label("self-pay")
+}
+
 // GenTyped draws a statically acceptable program and an environment.
 func GenTyped(t *rapid.T, cfg GenCfg) *Case {
 	g := &gctx{t: t, cfg: cfg, prog: &Program{}, labels: map[string]bool{}, monVarAsset: map[string]string{}, accVarValue: map[string]string{},
@@ -676,6 +768,12 @@ func GenTyped(t *rapid.T, cfg GenCfg) *Case {
 			continue
 		}
 		g.prog.Stmts = append(g.prog.Stmts, g.send())
+	}
+	if !cfg.SingleSend && cfg.MaxStmts >= 3 && rapid.IntRange(0, 7).Draw(t, "routeTwice") == 0 {
+		g.routeTwice()
+	}
+	if !cfg.SingleSend && cfg.MaxStmts >= 2 && rapid.IntRange(0, 7).Draw(t, "selfPay") == 0 {
+		g.selfPay()
 	}
 	if !cfg.NoReqMeta && rapid.IntRange(0, 5).Draw(t, "reqMeta") == 0 {
 		g.env.ReqMeta[rapid.SampledFrom([]string{"k1", "req", "k2"}).Draw(t, "reqKey")] = "from-request"
